@@ -1,1 +1,128 @@
-//! (stub)
+//! Write-side adversary: a sink that fails at a scripted call, accepts only part of each buffer,
+//! or returns `Interrupted`; it records every accepted byte and every error it delivered.
+
+use serde::{Deserialize, Serialize};
+use std::io::{self, Write};
+use std::sync::{Arc, Mutex};
+
+#[derive(Clone, Copy, Debug, Serialize, Deserialize, PartialEq)]
+pub enum FaultKind {
+    Other,
+    BrokenPipe,
+    StorageFull,
+    WriteZero,
+    PermissionDenied,
+}
+
+impl FaultKind {
+    pub fn to_io(self) -> io::ErrorKind {
+        match self {
+            FaultKind::Other => io::ErrorKind::Other,
+            FaultKind::BrokenPipe => io::ErrorKind::BrokenPipe,
+            FaultKind::StorageFull => io::ErrorKind::StorageFull,
+            FaultKind::WriteZero => io::ErrorKind::WriteZero,
+            FaultKind::PermissionDenied => io::ErrorKind::PermissionDenied,
+        }
+    }
+}
+
+#[derive(Clone, Debug, Default, Serialize, Deserialize, PartialEq)]
+pub struct SinkScript {
+    /// fail the k-th call (0-based, counting `write` and `flush` calls together)
+    pub fail_at: Option<u32>,
+    pub kind: Option<FaultKind>,
+    /// keep failing on every later call
+    pub sticky: bool,
+    /// accepted sizes of successive `write` calls (cycled; each ≥ 1; empty = whole buffer)
+    pub accept: Vec<u32>,
+    /// pattern over `write` calls (cycled): `true` = return `Interrupted`. Needs a `false`.
+    pub interrupts: Vec<bool>,
+}
+
+#[derive(Clone, Debug, Default)]
+pub struct SinkLog {
+    pub bytes: Vec<u8>,
+    pub calls: u32,
+    pub write_calls: u32,
+    pub flush_calls: u32,
+    pub errors_delivered: u32,
+    pub short_writes: u32,
+    pub interrupts_delivered: u32,
+}
+
+#[derive(Clone)]
+pub struct FaultySink {
+    pub log: Arc<Mutex<SinkLog>>,
+    script: SinkScript,
+    accept_i: usize,
+    intr_i: usize,
+    failed: bool,
+}
+
+impl FaultySink {
+    pub fn new(mut script: SinkScript) -> Self {
+        script.accept.retain(|s| *s > 0);
+        if !(script.interrupts.iter().any(|b| *b) && script.interrupts.iter().any(|b| !*b)) {
+            script.interrupts.clear();
+        }
+        FaultySink { log: Arc::new(Mutex::new(SinkLog::default())), script, accept_i: 0, intr_i: 0, failed: false }
+    }
+    pub fn snapshot(&self) -> SinkLog {
+        self.log.lock().unwrap().clone()
+    }
+    fn fault(&mut self, log: &mut SinkLog) -> Option<io::Error> {
+        let idx = log.calls;
+        log.calls += 1;
+        let hit = match self.script.fail_at {
+            Some(k) => idx == k || (self.script.sticky && self.failed),
+            None => false,
+        };
+        if hit {
+            self.failed = true;
+            log.errors_delivered += 1;
+            let kind = self.script.kind.unwrap_or(FaultKind::Other).to_io();
+            Some(io::Error::new(kind, "injected sink failure"))
+        } else {
+            None
+        }
+    }
+}
+
+impl Write for FaultySink {
+    fn write(&mut self, buf: &[u8]) -> io::Result<usize> {
+        let log_arc = self.log.clone();
+        let mut log = log_arc.lock().unwrap();
+        log.write_calls += 1;
+        if let Some(e) = self.fault(&mut log) {
+            return Err(e);
+        }
+        if !self.script.interrupts.is_empty() {
+            let i = self.intr_i % self.script.interrupts.len();
+            self.intr_i += 1;
+            if self.script.interrupts[i] {
+                log.interrupts_delivered += 1;
+                return Err(io::Error::new(io::ErrorKind::Interrupted, "injected interrupt"));
+            }
+        }
+        let mut n = buf.len();
+        if !self.script.accept.is_empty() && n > 0 {
+            let s = self.script.accept[self.accept_i % self.script.accept.len()] as usize;
+            self.accept_i += 1;
+            if s < n {
+                n = s.max(1);
+                log.short_writes += 1;
+            }
+        }
+        log.bytes.extend_from_slice(&buf[..n]);
+        Ok(n)
+    }
+    fn flush(&mut self) -> io::Result<()> {
+        let log_arc = self.log.clone();
+        let mut log = log_arc.lock().unwrap();
+        log.flush_calls += 1;
+        if let Some(e) = self.fault(&mut log) {
+            return Err(e);
+        }
+        Ok(())
+    }
+}
